@@ -464,7 +464,7 @@ def known_findings(pid):
             l = l.strip()
             if l and not l.startswith("#"):
                 e = json.loads(l)
-                if e.get("property") == pid and e.get("status", "known") == "known":
+                if (e.get("property") == pid or pid in e.get("also", [])) and e.get("status", "known") == "known":
                     out.append(e)
     return out
 
